@@ -18,7 +18,7 @@ from WallGo.grid3Scales import Grid3Scales
 
 from symx import axioms, core, diff, npx
 from symx.core import AND, Cond, Sym, close, eq, ge, gt, le, lt
-from symx.harness import HarnessDef
+from symx.harness import HarnessDef, bare
 
 EXPLANATION = __doc__
 LATTICE = [(Fr(3, 4), Fr(3, 5), Fr(3, 5)), (Fr(2, 7), Fr(12, 7), Fr(12, 7)),
@@ -65,7 +65,7 @@ def _patch(h):
 
 
 def _new_simple(h):
-    g = Grid.__new__(Grid)
+    g = bare(Grid)
     g.positionFalloff = h.real("Lz", 1e-3, 1e3, default=1.3)
     g.momentumFalloffT = h.real("T0", 1e-3, 1e3, default=0.7)
     return g
@@ -131,7 +131,7 @@ LENGTHS = [dict(L=Fr(1), s=Fr(1, 10), wc=Fr(2, 5), tin=Fr(6), tout=Fr(9)),
 
 
 def _new3(h, free_a, lattice=None, smoothing=None, lengths=None):
-    g = Grid3Scales.__new__(Grid3Scales)
+    g = bare(Grid3Scales)
     if lengths is not None:
         cv = (lambda q: Sym(z3.RealVal(q))) if h.symbolic else float
         L, s, wc, tin, tout = (cv(lengths[k]) for k in ("L", "s", "wc", "tin", "tout"))
@@ -262,8 +262,16 @@ def h_history(h, seq, cls):
         g = Grid3Scales(M, N, s0["pos"][0], s0["pos"][1], s0["pos"][2], s0["mom"], 0.5, 0.1,
                         s0["pos"][3])
     cur_pos, cur_mom = s0["pos"], s0["mom"]
+
+    def query(grid):
+        # reading the grid is part of every real history (and must not freeze anything)
+        for ep in (False, True):
+            grid.getCompactCoordinates(ep)
+            grid.getCoordinates(ep)
+            grid.getCompactificationDerivatives(ep)
     for i, op in enumerate(seq):
         sn = scales("bcd"[i])
+        query(g)
         if op == "pos":
             g.changePositionFalloffScale(*sn["pos"])
             cur_pos = sn["pos"]
@@ -274,13 +282,21 @@ def h_history(h, seq, cls):
         f = Grid(M, N, cur_pos[0], cur_mom)
     else:
         f = Grid3Scales(M, N, cur_pos[0], cur_pos[1], cur_pos[2], cur_mom, 0.5, 0.1, cur_pos[3])
-    for getter in ("getCoordinates", "getCompactificationDerivatives"):
-        a, b = getattr(g, getter)(), getattr(f, getter)()
-        for k, (x, y) in enumerate(zip(a, b)):
-            x, y = np.asarray(x), np.asarray(y)
-            h.prove(f"{getter}[{k}] shape", Cond(b=x.shape == y.shape))
-            for idx in np.ndindex(*x.shape):
-                h.prove_eq(f"{getter}[{k}] equals fresh grid", x[idx], y[idx])
+    for getter in ("getCoordinates", "getCompactificationDerivatives", "getCompactCoordinates"):
+        for ep in (False, True):
+            a, b = getattr(g, getter)(ep), getattr(f, getter)(ep)
+            tag = getter + ("(endpoints)" if ep else "")
+            for k, (x, y) in enumerate(zip(a, b)):
+                x, y = np.asarray(x), np.asarray(y)
+                h.prove(f"{tag}[{k}] shape", Cond(b=x.shape == y.shape))
+                for idx in np.ndindex(*x.shape):
+                    if ep and h.symbolic and not isinstance(x[idx], Sym) and not np.isfinite(x[idx]):
+                        h.prove(f"{tag}[{k}] equals fresh grid", Cond(b=(not isinstance(y[idx], Sym)) and x[idx] == y[idx]))
+                        continue
+                    if ep and not h.symbolic and not np.isfinite(x[idx]):
+                        h.prove(f"{tag}[{k}] equals fresh grid", Cond(b=bool(x[idx] == y[idx])))
+                        continue
+                    h.prove_eq(f"{tag}[{k}] equals fresh grid", x[idx], y[idx])
     # (Grid3Scales.positionFalloff is only read by the inherited compactify: known finding)
     for attr in (("positionFalloff", "momentumFalloffT") if cls == "Grid" else ("momentumFalloffT",)):
         h.prove_eq(f"{attr} equals fresh grid", getattr(g, attr), getattr(f, attr))
